@@ -141,6 +141,25 @@ control("C15", "AddUnit stops clearing the verdict memo (fix reverted)",
         [(UD, "        quantity_type_list.append(info)\n        # verdicts cached before this registration may no longer hold\n        self._category_unit_valid.clear()", "        quantity_type_list.append(info)")], "C15.R3")
 control("C15", "a validity check edits the CategoryInfo it looked up",
         [(UD, "        category_info = self.GetCategoryInfo(category)\n        return category_info.default_value", "        category_info = self.GetCategoryInfo(category)\n        category_info.valid_units_set.add(category_info.default_unit)\n        return category_info.default_value")], "C15.R1")
+# ------------------------------------------------------------------------------------------ C08
+control("C08", "isinstance guard of Array.__eq__ removed",
+        [(AR, "        if not isinstance(other, Array):\n            return False\n\n        return (\n            tuple(self.values) == tuple(other.values)", "        return (\n            tuple(self.values) == tuple(other.values)")], "C08.R1")
+control("C08", "FixedArray.__eq__ fix reverted",
+        [(FA, "        return (\n            isinstance(other, FixedArray)\n            and Array.__eq__(self, other)\n            and self.dimension == other.dimension\n        )", "        return Array.__eq__(self, other) and self.dimension == other.dimension")], "C08.R1")
+control("C08", "Fraction.__eq__ fix reverted",
+        [(FR, "        if not isinstance(other, (Fraction,) + NumberType):\n            return False\n        return self.__old_cmp__(other) == 0", "        return self.__old_cmp__(other) == 0")], "C08.R1")
+control("C08", "Curve.__eq__ compares before checking the type",
+        [(CU, "        if not isinstance(other, Curve):\n            return False\n        return self.GetImage() == other.GetImage()", "        return self.GetImage() == other.GetImage()")], "C08.R1")
+control("C08", "Scalar.__lt__ compares the raw value of other",
+        [(S, "        v2 = other.GetValue(self.unit)\n        return v1 < v2\n\n    # right", "        v2 = other.value\n        return v1 < v2\n\n    # right")], "C08.R3")
+control("C08", "FractionScalar.__lt__ converts into other's unit",
+        [(FS, "        v2 = other.GetValue(self.unit)", "        v2 = other.GetValue(other.unit)")], "C08.R3")
+control("C08", "Scalar.__lt__ loses its quantity-type guard",
+        [(S, "        if self.quantity_type != other.quantity_type:\n            msg = \"can not compare scalars of different quantity types: %r != %r\"\n            raise TypeError(msg % (self.quantity_type, other.quantity_type))\n\n        v1 = self._value", "        v1 = self._value")], "C08.R5")
+control("C08", "same-unit fast path before the quantity-type guard",
+        [(S, "        if self.quantity_type != other.quantity_type:\n            msg = \"can not compare scalars of different quantity types: %r != %r\"", "        if self.unit == other.unit:\n            return self._value < other.value\n        if self.quantity_type != other.quantity_type:\n            msg = \"can not compare scalars of different quantity types: %r != %r\"")], "C08.R5")
+control("C08", "Scalar.__hash__ adds the unit database",
+        [(S, "        return hash((self._value, self._quantity))", "        return hash((self._value, self._quantity, id(self._unit_database)))")], "C08.R4")
 # ------------------------------------------------------------------------------------------ running
 def _apply(edits):
     overlay = {}
